@@ -31,7 +31,7 @@ type C08 struct {
 func init() { register(&C08{base: base{id: "C08", level: "exploration"}, poolW: -1}) }
 
 func (c *C08) Rule() string {
-	return "one run = one sequencer history of 3..8 honest batches (insertions and deletions, incl. padding slots) built with the real PoseidonTree and hashed with the real ComputeInputHashInsertion/Deletion; the sequencer grinds commitments (about 48 Poseidon evaluations) so that pre- and/or post-roots get >=1 leading zero byte; each batch's helper hash is compared with the contract model's Keccak of the canonical packing and the batch is evaluated on the real compiled circuit with the helper's hash; evaluations = batches checked; non-trivial = batch with at least one packed value shorter than 32 bytes or an extreme index; distinct = (mode, depth, batch, short-field pattern, index class); every sixth run is a World L run: 2..5 caller tasks hash their own parameter sets with the helpers, interleaved by the tape at every statement of the instrumented library, each result compared with the contract packing of that caller's own parameters"
+	return "one run = one sequencer history of 3..8 honest batches (insertions and deletions, incl. padding slots) built with the real PoseidonTree and hashed with the real ComputeInputHashInsertion/Deletion; the sequencer grinds commitments (about 48 Poseidon evaluations) so that pre- and/or post-roots get >=1 leading zero byte; each batch's helper hash is compared with the contract model's Keccak of the canonical packing and the batch is evaluated on the real compiled circuit with the helper's hash; evaluations = batches checked; non-trivial = batch with at least one packed value shorter than 32 bytes or an extreme index; distinct = (mode, depth, batch, short-field pattern, index class); every sixth run is a World L run: 2..5 caller tasks hash their own parameter sets with the helpers, interleaved by the tape at every statement of the instrumented library, each result compared with the contract packing of that caller's own parameters; a quarter of the insertion batches are ground into a Keccak digest with a leading zero byte, and those (plus one batch in twelve) are also proved through the repository's Prove* on DummySetup keys"
 }
 func (c *C08) Assumptions() []string {
 	return []string{"on-chain packing taken from the property text: uint32 BE indices, 32-byte BE roots and commitments, Keccak-256, compared as field elements (mod r)"}
